@@ -17,7 +17,7 @@ d = meta.get('demo_pkg_dir', '.') or '.'
 # confirm demo
 r = sh(f'git -C {wt} status --short')
 print('worktree status:', r.stdout.strip().replace('\n', ' | '))
-run = f"{env} go test -vet=off -count=1 -timeout 300s -run 'Seed[23456]|seed[23456]' ./{d}/"
+run = f"{env} go test -vet=off -count=1 -timeout 300s -run 'Seed[2-9]|seed[2-9]' ./{d}/"
 r1 = sh(run, cwd=wt)
 print('demo with change   :', 'FAIL' if r1.returncode != 0 else 'pass')
 sh(f'git -C {wt} apply -R {out}/patch.diff')
